@@ -123,6 +123,22 @@ def g_pie_object(rng):
         o["value"] = g_bytes(rng, False)["hex"]
     else:
         o["value"] = g_bytes(rng, False)["hex"]
+    if kind in ("SymmetricKey", "PublicKey", "PrivateKey") and rng.random() < 0.35:
+        # key wrapping data with BOTH key information structures and different, non-empty parameter sets
+        def ki():
+            cp = {}
+            while not cp:
+                for f, _, cls in IC.CP_FIELDS:
+                    if rng.random() < 0.3:
+                        cp[f] = pick_enum(rng, cls)["E"][1] if cls else (True if f == "random_iv" else
+                                                                          rng.choice([1, 8, 12, 16, 96, 128]))
+            return {"uid": g_uid(rng), "cp": cp}
+        w = {"method": rng.choice(["ENCRYPT", "MAC_SIGN", "ENCRYPT_THEN_MAC_SIGN", "MAC_SIGN_THEN_ENCRYPT"]),
+             "enc": ki() if rng.random() < 0.8 else None, "mac": ki() if rng.random() < 0.7 else None,
+             "mac_signature": g_bytes(rng, False)["hex"] if rng.random() < 0.4 else None,
+             "iv": g_bytes(rng, False)["hex"] if rng.random() < 0.4 else None,
+             "encoding": rng.choice([None, "NO_ENCODING", "TTLV_ENCODING"])}
+        o["wrapping"] = w
     if kind != "OpaqueObject":
         o["masks"] = g_masks(rng)["Es"][1]
     put(o, "name", maybe(rng, lambda: g_text(rng)))
